@@ -819,8 +819,10 @@ class ZipIter:
 def _zip(ex, args, f):
     a = deref_all(ex, args[0])
     b = deref_all(ex, args[1])
-    if isinstance(b, (VecV, Arr)):
-        b = I["<_ as IntoIterator>::into_iter"](ex, [b], f)
+    if isinstance(b, (VecV, Arr, Str)):       # zip takes IntoIterator: &[u8] / &Vec<T> / arrays
+        b = I["<_ as IntoIterator>::into_iter"](ex, [args[1]], f)
+    if isinstance(a, (VecV, Arr, Str)):
+        a = I["<_ as IntoIterator>::into_iter"](ex, [args[0]], f)
     return ZipIter(a, b)
 
 
@@ -1582,3 +1584,137 @@ def _range_incl_contains(ex, args, f):
     if x.signed:
         return Bool(z3.And(lo.e <= x.e, x.e <= hi.e))
     return Bool(z3.And(z3.ULE(lo.e, x.e), z3.ULE(x.e, hi.e)))
+
+
+# ---- Iterator::all / any / fold over any modelled iterator (zip, map, ...): driven through the iterator's own next() ---------------------
+def _generic_iter(it):
+    from intrinsics2 import SliceIter
+    return not isinstance(it, SliceIter)
+
+
+@intr("<_ as Iterator>::all")
+def _all_generic(ex, args, f, _prev=I.get("<_ as Iterator>::all")):
+    it = deref_all(ex, args[0])
+    clo = deref_all(ex, args[1])
+    while True:
+        nx = _iter_next(ex, it, f)
+        if nx.variant == "None":
+            return Bool(True)
+        hit = ex.call_closure(clo, [nx.fields[0]])
+        if not ex.decide(hit.e):
+            return Bool(False)
+
+
+@intr("<_ as Iterator>::any")
+def _any_generic(ex, args, f, _prev=I["<_ as Iterator>::any"]):
+    it = deref_all(ex, args[0])
+    if not _generic_iter(it):
+        return _prev(ex, args, f)
+    clo = deref_all(ex, args[1])
+    while True:
+        nx = _iter_next(ex, it, f)
+        if nx.variant == "None":
+            return Bool(False)
+        hit = ex.call_closure(clo, [nx.fields[0]])
+        if ex.decide(hit.e):
+            return Bool(True)
+
+
+@intr("<_ as Iterator>::fold")
+def _fold_generic(ex, args, f, _prev=I.get("<_ as Iterator>::fold")):
+    it = deref_all(ex, args[0])
+    acc = args[1]
+    clo = deref_all(ex, args[2])
+    while True:
+        nx = _iter_next(ex, it, f)
+        if nx.variant == "None":
+            return acc
+        acc = ex.call_closure(clo, [acc, nx.fields[0]])
+
+
+# ---- operator traits on references to integers (`&a ^ &b`, `a | &b`, ...) ----------------------------------------------------------------
+def _binop_trait(op):
+    def g(ex, args, f):
+        a = deref_all(ex, args[0])
+        b = deref_all(ex, args[1])
+        if not (isinstance(a, Int) and isinstance(b, Int)):
+            raise Unsupported("operator trait %s on %r, %r" % (f, a, b))
+        return Int(op(a.e, b.e), a.ty)
+    return g
+
+
+for _tr, _m, _op in (("BitXor", "bitxor", lambda x, y: x ^ y), ("BitOr", "bitor", lambda x, y: x | y), ("BitAnd", "bitand", lambda x, y: x & y)):
+    I["<_ as %s>::%s" % (_tr, _m)] = _binop_trait(_op)
+
+
+@intr("Option::is_some_and")
+def _is_some_and(ex, args, f):
+    o = deref_all(ex, args[0])
+    if o.variant == "None":
+        return Bool(False)
+    return ex.call_closure(deref_all(ex, args[1]), [o.fields[0]])
+
+
+@intr("Vec::with_capacity", "Vec::<T>::with_capacity")
+def _with_capacity_budget(ex, args, f):
+    # Vec::with_capacity(n) is an allocation request of n elements: checked against the budget like reserve / vec![x; n]
+    if args:
+        n = deref_all(ex, args[0])
+        if isinstance(n, Int):
+            if n.conc() is None or n.conc() > ALLOC_BUDGET[0]:
+                check_budget(ex, n, "allocation (Vec::with_capacity)")
+    return VecV([])
+
+
+@intr("<_ as Read>::read_to_end")
+def _read_to_end4(ex, args, f, _prev=I["<_ as Read>::read_to_end"]):
+    """crate types that implement Read themselves (payload::Reader): std's default read_to_end = read() into a probe buffer until Ok(0)"""
+    rd = deref_all(ex, args[0])
+    if isinstance(rd, Adt):
+        fn = ex.find_impl("read", "Read", rd.ty)
+        if fn is None:
+            raise Unsupported("read_to_end on %s without a Read impl in the crate" % rd.ty)
+        v = deref_all(ex, args[1])
+        total = 0
+        for _ in range(256):
+            cell = Cell(Arr([Int(0, "u8") for _ in range(32)]))
+            r = ex.call_fn(fn, [args[0], Ref(cell)])
+            if r.variant != "Ok":
+                return r
+            n = pick(ex, r.fields[0], 32)
+            if n == 0:
+                return ok(usize(total))
+            v.items += list(cell.v.items[:n])
+            total += n
+        raise Unsupported("read_to_end: more than 256 probe reads")
+    return _prev(ex, args, f)
+
+
+@intr("<_ as Read>::read")
+def _read_model(ex, args, f, _prev=I.get("<_ as Read>::read")):
+    """Read::read of the model reader into a (sub)slice: hands out up to K bytes (K = 0: as many as fit)"""
+    rd = deref_all(ex, args[0])
+    if not isinstance(rd, Reader):
+        if _prev is None:
+            raise Unsupported("Read::read on %r" % (rd,))
+        return _prev(ex, args, f)
+    dst = deref_all(ex, args[1])
+    if isinstance(dst, SliceMut):
+        room = dst.hi - dst.lo
+    else:
+        room = len(items_of(ex, dst))
+    n = min(room, rd.remaining()) if rd.k == 0 else min(room, rd.remaining(), rd.k)
+    vals = [Int(b, "u8") for b in rd.data[rd.pos:rd.pos + n]]
+    rd.pos += n
+    if isinstance(dst, SliceMut):
+        cur = list(items_of(ex, dst.ref))
+        cur[dst.lo:dst.lo + n] = vals
+        _store(ex, dst.ref, Arr(cur))
+    else:
+        cur = list(items_of(ex, dst))
+        cur[:n] = vals
+        if isinstance(dst, VecV):
+            dst.items[:] = cur
+        else:
+            _store(ex, args[1], Arr(cur))
+    return ok(usize(n))
